@@ -341,6 +341,8 @@ def gen_cases(run, per_class):
             cases.append(case)
             # objects the library derives from that object's Python values (not from JSON-like data)
             once = {k: v for k, v in case.items() if k != "twice"}
+            if r.random() < 0.3 and "custom_properties" not in o:
+                cases.extend(nested_custom_cases(gen, cid, o, once["opts"][:4]))
             if r.random() < 0.5:
                 how = r.choice(["deepcopy", "rebuild", "other-version", "new-version", "revoke", "copy", "pickle", "zone:" + r.choice(ZONES)])
                 cases.append(dict(once, derive=how, opts=CORE_OPTS[:4] + [r.choice(ALL_OPTS)]))
@@ -348,6 +350,32 @@ def gen_cases(run, per_class):
                 # every class once with its timestamps given as aware datetimes of another zone
                 cases.append(dict(once, derive="zone:" + r.choice(ZONES), opts=CORE_OPTS[:2]))
     return cases
+
+
+def nested_custom_cases(gen, cid, o, opts):
+    """custom content at the nested object positions the frozen tables give (embedded object, list element, extension,
+    observable, bundle member, marking definition -- the C04 site walk): as data (parse / constructor with
+    customization allowed) and with the nested value handed over as a library OBJECT built beforehand"""
+    from props import c04 as c04gen
+    r = gen.rng
+    sites = []
+    c04gen.walk(gen, cid, o, [], sites)
+    nested = [(path, ex) for kind, path, ex in sites if kind == "object" and path and "/<" not in ex["cid"]]
+    out = []
+    for path, ex in r.sample(nested, min(2, len(nested))):
+        x = copy.deepcopy(o)
+        names = CUSTOM_NAMES20 if gen.classes[cid]["ver"] == "2.0" else CUSTOM_NAMES21
+        slots = {s0["name"] for s0 in gen.classes[ex["cid"]]["slots"]}
+        name = r.choice([n for n in names if n not in slots])
+        try:
+            c04gen.at(x, path)[name] = copy.deepcopy(r.choice(CUSTOM_VALUES))
+        except (KeyError, IndexError, TypeError):
+            continue
+        site = "custom property %s at %s (%s)" % (name, "/".join(str(p0) for p0 in path), ex["cid"])
+        out.append({"route": r.choice(["parse", "construct"]), "cid": cid, "data": x, "allow": True, "opts": opts, "site": site})
+        out.append({"route": "construct", "cid": cid, "data": x, "allow": True, "opts": opts, "site": "pre-built: " + site,
+                    "prebuilt": [{"path": list(path), "cid": ex["cid"]}]})
+    return out
 
 
 # zones for timestamps given as aware datetimes: fixed offsets and named zones (with daylight saving)
@@ -367,12 +395,13 @@ def toplevel_ext_cases(gen, n):
     cids = [c for c in gen.toplevel_ids() if c.startswith("2.1/") and gen.classes[c]["family"] in ("sdo", "sro")
             and any(s["name"] == "extensions" for s in gen.classes[c]["slots"])]
 
-    def with_ext(o, which):
+    def with_ext(o, which, bare=False):
         x = copy.deepcopy(o)
         x.pop("extensions", None)
         ext = {}
         if "A" in which:
-            ext[EXT_TLA] = {"extension_type": "toplevel-property-extension"}
+            # bare: the registered extension given without its extension_type (the registered class fills it in)
+            ext[EXT_TLA] = {} if bare else {"extension_type": "toplevel-property-extension"}
             x["a_rank"] = 3
             if r.random() < 0.5:
                 x["a_note"] = "n"
@@ -396,6 +425,15 @@ def toplevel_ext_cases(gen, n):
         data = with_ext(o, which)
         if route == "construct":
             data.pop("type", None)
+        if "A" in which and r.random() < 0.35:
+            bare = with_ext(o, which, bare=True)
+            bare["a_note"] = "n"                       # two declared properties: declared order differs from sorted order
+            if r.random() < 0.5:
+                bare["a_rank"] = "3"                   # a value the declared property cleans (text of an integer)
+            if route == "construct":
+                bare.pop("type", None)
+            out.append({"route": route, "cid": cid, "data": bare, "allow": True, "opts": CORE_OPTS[:3],
+                        "site": "registered toplevel-property-extension given without extension_type"})
         out.append({"route": route, "cid": cid, "data": data, "allow": False, "opts": CORE_OPTS[:3], "expect_created": True,
                     "control": {"route": "parse", "cid": cid, "data": o, "allow": False},
                     "before": [{"route": "parse", "cid": cid, "data": bdata, "allow": False}]})
@@ -526,6 +564,16 @@ def has_unregistered_toplevel_ext(d):
 def classify(case, res, f):
     """Narrow finding ids for defects of the unchanged code."""
     d = case["data"]
+    if (f["kind"] == "reparse-refused" and case["cid"].endswith("/MarkingDefinition") and not case.get("derive")
+            and any(sp.get("path") == ["definition"] for sp in case.get("prebuilt") or [])
+            and str(case.get("site", "")).startswith("pre-built: custom property ")
+            and "Unexpected properties for " in json.dumps(f.get("detail", ""))):
+        # the definition handed over as a StatementMarking / TLPMarking OBJECT that carries a custom property
+        return "C01-marking-definition-with-custom-definition-object-not-reparsed"
+    if (f["kind"] in ("not-equal", "reserialize-differs") and not case.get("derive")
+            and str(case.get("site", "")) == "registered toplevel-property-extension given without extension_type"
+            and isinstance(d.get("extensions"), dict) and d["extensions"].get(EXT_TLA) == {}):
+        return "C01-registered-toplevel-extension-without-extension-type-not-reparsed-equal"
     if (f["kind"] in ("not-equal", "reserialize-differs") and res.get("cls") == "2.0/MarkingDefinition"
             and str(case.get("derive", "")).startswith("zone:")
             and isinstance(d.get("created"), str) and "." in d["created"] and d.get("definition_type") != "tlp"):
